@@ -91,34 +91,48 @@ pub fn run_prompt(args: Vec<String>) {
                 };
 
                 let echo = ends_with_expr_stmt(&program);
-                // a line rejected by the compiler must leave no bindings behind
-                let saved = (symtab.clone(), constants.clone());
-                let mut compiler = Compiler::new_with_state(symtab, constants);
-                if let Err(e) = compiler.compile(program) {
+                // a line rejected by the compiler must leave no bindings behind:
+                // compile the whole line first, on a copy of the state
+                let mut dry_run = Compiler::new_with_state(symtab.clone(), constants.clone());
+                let mut copy = Program::default();
+                copy.statements = program.statements.clone();
+                if let Err(e) = dry_run.compile(copy) {
                     eprintln!("{}", e);
-                    (symtab, constants) = saved;
                     continue;
                 }
-                let bytecode = compiler.bytecode();
-                let mut vm = VM::new_with_global_store(bytecode, globals);
-                init_builtin_vars(&vm, args.clone());
-                let err = vm.run();
-                if let Err(err) = err {
-                    eprintln!("{}", err);
-                    globals = vm.globals;
+                // Then compile and run statement by statement, so that a runtime
+                // error leaves behind exactly the bindings of the statements that ran
+                let count = program.statements.len();
+                for (i, stmt) in program.statements.into_iter().enumerate() {
+                    let mut single = Program::default();
+                    single.statements.push(stmt);
+                    let mut compiler = Compiler::new_with_state(symtab, constants);
+                    if let Err(e) = compiler.compile(single) {
+                        // cannot happen after the dry run; keep the state consistent anyway
+                        eprintln!("{}", e);
+                        symtab = compiler.symtab;
+                        constants = compiler.constants;
+                        break;
+                    }
+                    let bytecode = compiler.bytecode();
+                    let mut vm = VM::new_with_global_store(bytecode, globals);
+                    init_builtin_vars(&vm, args.clone());
+                    let err = vm.run();
                     symtab = compiler.symtab;
                     constants = compiler.constants;
-                    continue;
+                    if let Err(err) = err {
+                        eprintln!("{}", err);
+                        globals = vm.globals;
+                        break;
+                    }
+                    // Get the object at the top of the VM's stack
+                    let stack_elem = vm.last_popped();
+                    // print the value of the final expression statement if it is not null
+                    if echo && i + 1 == count && !matches!(stack_elem.as_ref(), Object::Null) {
+                        println!("{}", stack_elem);
+                    }
+                    globals = vm.globals;
                 }
-                // Get the object at the top of the VM's stack
-                let stack_elem = vm.last_popped();
-                // print the value of the final expression statement if it is not null
-                if echo && !matches!(stack_elem.as_ref(), Object::Null) {
-                    println!("{}", stack_elem);
-                }
-                globals = vm.globals;
-                symtab = compiler.symtab;
-                constants = compiler.constants;
             }
         }
     }
